@@ -4,7 +4,7 @@ from __future__ import annotations
 from worlds import events as EV
 from worlds.engine_common import simulate
 from worlds.policies import ref_retryable, ref_stop, ref_wait_exact
-from worlds.retry_world import attempts_of, gen_retry_spec, stop_kinds
+from worlds.retry_world import attempts_of, deliveries, gen_retry_spec, stop_kinds
 
 ID = "C05"
 LEVEL = "exploration"
@@ -20,12 +20,12 @@ RULE_TEXT = ("One failing step under composed policies (stop_after_attempt 0..5,
 COMPONENTS = {"real": ["workflows.* engine, retry_policy"], "stub": ["llama_index_instrumentation"], "sim": ["loop, clocks (distinct monotonic/wall origins)"]}
 ASSUMPTIONS = ["'really elapsed' = virtual elapsed time t; decisions within 1e-9 of a delay boundary are exempt",
                "no wall-clock step faults are injected in this check"]
-EXPECTED_PROBES = ["retried", "gave-up", "delay-stop-decided", "epoch-arm", "basic-arm", "handler-saw-StepFailedEvent"]
+EXPECTED_PROBES = ["contended-arm", "retry-redelivered", "fresh-event-waited-in-queue", "retried", "gave-up", "delay-stop-decided", "epoch-arm", "basic-arm", "handler-saw-StepFailedEvent"]
 LEVEL_TEXT = ("Seeded exploration of policy compositions x failure patterns x clock configurations; every retry/stop decision "
               "of the run is compared with an independent reference evaluation.")
 LEVEL_NOTE = "Trusted: simulator clocks, reference policy semantics in worlds/policies.py (written from the docstrings and the statement)."
 
-CFG = {"driver": "result", "grid": [0, 1, 1, 2, 3], "p_handler": 40}
+CFG = {"driver": "result", "grid": [0, 1, 1, 2, 3], "p_handler": 40, "p_contend": 45}
 
 
 def gen(tape, cfg):
@@ -38,13 +38,37 @@ def setup(world, spec):
 
 def check(world, spec, outcome) -> None:
     recs = world.trace.recs
-    pol = spec["steps"][0]["retry"]
+    pol = next(st for st in spec["steps"] if st["name"] == "s0")["retry"]
     arm = "epoch-now" if world.cfg.get("epoch_now") else "basic-runtime-now"
     world.probe("epoch-arm" if world.cfg.get("epoch_now") else "basic-arm")
-    atts = attempts_of(recs)
+    world._nt = False
+    world._shape_extra = None
+    dels = deliveries(recs)
+    contended = bool(spec.get("contended"))
+    if contended:
+        world.probe("contended-arm")
+        _probe_contention(world, recs)
+    for uid, atts in dels.items():
+        _check_delivery(world, pol, arm, uid, atts, recs, contended)
+
+
+def _probe_contention(world, recs) -> None:
+    """a retry (attempts >= 1) or a fresh event that had to wait in the step queue"""
+    for _, _, kind, f in recs:
+        if kind == "tick" and f.get("tick") == "add_event" and f.get("attempts"):
+            world.probe("retry-redelivered")
+    starts = {}
+    for _, t, kind, f in recs:
+        if kind == "emit" and f.get("ev") == "E0":
+            starts[f["uid"]] = t
+        elif kind == "enter" and f["step"] == "s0" and f["retry"] == 0 and f["uid"] in starts and t > starts[f["uid"]] + 1e-9:
+            world.probe("fresh-event-waited-in-queue")
+
+
+def _check_delivery(world, pol, arm, uid, atts, recs, contended) -> None:
     if not atts:
-        world._nt = False
         return
+    cause_extra = {"contended": True} if contended else {}
     t_first = atts[0]["t0"]
     n_exec = len(atts)
     dep = False
@@ -52,18 +76,18 @@ def check(world, spec, outcome) -> None:
         ef = a["enter"]
         # retry_info
         if ef["retry"] != i - 1:
-            world.violate("C05.retry-info", f"attempt {i}: retry_info().retry_number={ef['retry']}, expected {i - 1}", a["seq"], field="retry_number")
+            world.violate("C05.retry-info", f"uid {uid} attempt {i}: retry_info().retry_number={ef['retry']}, expected {i - 1}", a["seq"], field="retry_number", **cause_extra)
         if i == 1:
             if ef["lastexc"] is not None:
-                world.violate("C05.retry-info", "first attempt has a last_exception", a["seq"], field="last_exception-first")
+                world.violate("C05.retry-info", f"uid {uid}: first attempt has a last_exception", a["seq"], field="last_exception-first", **cause_extra)
         else:
             prev = atts[i - 2]["exit"]
-            if prev.startswith("raised:") and (ef["lastexc"] != prev.split(":", 1)[1] or ef["lastmsg"] != f"s0/1/f{i - 2}".replace("s0/1", "s0/1")):
+            if prev.startswith("raised:"):
                 if ef["lastexc"] != prev.split(":", 1)[1] or not str(ef["lastmsg"]).endswith(f"f{i - 2}") and "'" not in str(ef["lastmsg"]):
-                    world.violate("C05.retry-info", f"attempt {i}: last_exception={ef['lastexc']}({ef['lastmsg']}), previous attempt raised {prev}", a["seq"], field="last_exception")
+                    world.violate("C05.retry-info", f"uid {uid} attempt {i}: last_exception={ef['lastexc']}({ef['lastmsg']}), previous attempt raised {prev}", a["seq"], field="last_exception", **cause_extra)
         if not a["exit"].startswith("raised:"):
             continue
-        exc = EV.EXCS[a["exit"].split(":", 1)[1]](f"s0/1/f{i - 1}")
+        exc = EV.EXCS[a["exit"].split(":", 1)[1]](f"s0/{uid}/f{i - 1}")
         elapsed = a["t1"] - t_first
         retryable = ref_retryable(pol["retry"], exc)
         exact = ref_wait_exact(pol["wait"], i)
@@ -77,33 +101,43 @@ def check(world, spec, outcome) -> None:
             dep = True
         if "delay" in sk:
             world.probe("delay-stop-decided")
+        if not retried and expect and contended and _run_ended_before(recs, a["seq"], pol, i):
+            continue   # the run was ended by another delivery's failure before this retry could start
         if retried and not expect:
             world.violate("C05.attempt-count" if "delay" not in sk else "C05.delay-budget",
-                          f"attempt {i} failed with {a['exit']} after {elapsed}s; policy {pol} must stop, but the step was retried",
-                          a["seq"], decision="over-retried", clock=arm)
+                          f"uid {uid} attempt {i} failed with {a['exit']} after {elapsed}s; policy {pol} must stop, but the step was retried",
+                          a["seq"], decision="over-retried", clock=arm, **cause_extra)
         if not retried and expect:
             world.violate("C05.attempt-count" if "delay" not in sk else "C05.delay-budget",
-                          f"attempt {i} failed with {a['exit']} after {elapsed}s real elapsed; policy {pol} permits a retry, but the engine gave up",
-                          a["seq"], decision="gave-up-early", clock=arm)
+                          f"uid {uid} attempt {i} failed with {a['exit']} after {elapsed}s real elapsed; policy {pol} permits a retry, but the engine gave up",
+                          a["seq"], decision="gave-up-early", clock=arm, **cause_extra)
     world.probe("retried" if n_exec > 1 else "gave-up")
     # reported attempts / elapsed
     last_fail = [a for a in atts if a["exit"].startswith("raised:")]
     for seq, t, kind, f in recs:
         rep = None
-        if kind == "publish" and f["ev"] == "WorkflowFailedEvent" and f.get("step") == "s0":
+        if kind == "publish" and f["ev"] == "WorkflowFailedEvent" and f.get("step") == "s0" and str(f.get("msg", "")).startswith(f"s0/{uid}/"):
             rep = ("WorkflowFailedEvent", f["attempts"], f["elapsed"])
-        elif kind == "step-failed-event" and f["step"] == "s0":
+        elif kind == "step-failed-event" and f["step"] == "s0" and f.get("in_uid") == uid:
             rep = ("StepFailedEvent", f["attempts"], f["elapsed"])
             world.probe("handler-saw-StepFailedEvent")
         if rep and last_fail:
             name, attempts, el = rep
             if attempts != len(last_fail):
-                world.violate("C05.reported-attempts", f"{name}.attempts={attempts}, real executions={len(last_fail)}", seq, event=name)
+                world.violate("C05.reported-attempts", f"uid {uid}: {name}.attempts={attempts}, real executions={len(last_fail)}", seq, event=name, **cause_extra)
             real = last_fail[-1]["t1"] - t_first
             if abs(el - real) > 1e-6:
-                world.violate("C05.reported-elapsed", f"{name}.elapsed_seconds={el}, really elapsed {real}", seq, event=name, clock=arm)
-    world._nt = n_exec >= 2 and dep
-    world._shape_extra = (stop_kinds(pol["stop"]), n_exec, arm)
+                world.violate("C05.reported-elapsed", f"uid {uid}: {name}.elapsed_seconds={el}, really elapsed {real}", seq, event=name, clock=arm, **cause_extra)
+    if n_exec >= 2 and dep:
+        world._nt = True
+    if world._shape_extra is None:
+        world._shape_extra = (stop_kinds(pol["stop"]), n_exec, arm)
+
+
+def _run_ended_before(recs, seq, pol, i) -> bool:
+    """did the run reach a terminal event (failure of another delivery, timeout...) after record `seq`?  then a missing retry proves nothing"""
+    return any(k == "publish" and f["ev"] in ("WorkflowFailedEvent", "WorkflowCancelledEvent", "WorkflowTimedOutEvent", "StopEvent") and s_ > seq
+               for s_, _, k, f in recs)
 
 
 def run(tape):
